@@ -1,5 +1,6 @@
 (* Statement pins for C02: compiled on every check run against the built .vo files. *)
 From SV Require Import Base.Prelude Model.Streams Proofs.Streams_proofs.
+From SV Require Import Model.StreamsTrace Proofs.StreamsTrace_proofs.
 Open Scope N_scope.
 From SV Require Import Props.C02.
 
@@ -71,6 +72,42 @@ Check C02_unsolicited :
 Check C02_sm_spec :
   forall ops, sm_applicable ops = true -> Forall op_in_range ops ->
   sm_check ops (snd (hm_run hm_new ops)) = true.
+Check C02_timed_refines :
+  forall ops t m, TRel t m ->
+  TRel (fst (th_run t ops)) (fst (hm_run m (untimed ops))) /\
+  untimed_res (snd (th_run t ops)) = snd (hm_run m (untimed ops)).
+Check C02_clock_independent :
+  forall a b, same_ops a b ->
+  untimed_res (snd (th_run th_new a)) = untimed_res (snd (th_run th_new b)).
+Check C02_timed_alloc_full :
+  forall t rid tok, wf_words (th_words t) ->
+  ((forall j, j < nids -> used (th_words t) j = true) <-> th_allocate t rid tok = (t, AllocFull)).
+Check C02_old_count_le :
+  forall o now age,
+  ot_older_than o now age <= N.of_nat (List.length (ot_by o)).
+Check C02_old_count_mono :
+  forall o now now' age, now <= now' ->
+  ot_older_than o now age <= ot_older_than o now' age.
+Check C02_old_count_bracket :
+  forall l1 l2 mn mn', mn <= mn' ->
+  Forall2 (fun e1 e2 => snd e2 = snd e1 /\ fst e2 <= fst e1) l1 l2 ->
+  (List.length (filter (is_old mn) l1) <= List.length (filter (is_old mn') l2))%nat.
+Check C02_old_count_young :
+  forall o now age,
+  (forall e, In e (ot_by o) -> now - age < fst e) -> ot_older_than o now age = 0.
+Check C02_trace_sound :
+  forall ls s, run conn_init ls = Some s -> c_writing s = [] ->
+  c02_trace_ok (obs_run conn_init ls) = true.
+Check C02_trace_prefix :
+  forall ls s, run conn_init ls = Some s ->
+  exists a, acc_run acc_init (obs_run conn_init ls) = Some a.
+Check C02_reader_exact :
+  forall f rest, frame_wf f ->
+  ConnFail.parse_frame (ConnFail.f_raw f ++ rest) = ConnFail.Got f rest.
+Check C02_reader_frames :
+  forall fs k rest, Forall frame_wf fs ->
+  read_frames (List.length fs + k) (concat (map ConnFail.f_raw fs) ++ rest) =
+  (fs ++ fst (read_frames k rest), snd (read_frames k rest)).
 Print Assumptions C02_bitmap_alloc.
 Print Assumptions C02_bitmap_full.
 Print Assumptions C02_bitmap_free.
@@ -87,3 +124,14 @@ Print Assumptions C02_exhaustion_reachable.
 Print Assumptions C02_no_spurious_break.
 Print Assumptions C02_unsolicited.
 Print Assumptions C02_sm_spec.
+Print Assumptions C02_timed_refines.
+Print Assumptions C02_clock_independent.
+Print Assumptions C02_timed_alloc_full.
+Print Assumptions C02_old_count_le.
+Print Assumptions C02_old_count_mono.
+Print Assumptions C02_old_count_bracket.
+Print Assumptions C02_old_count_young.
+Print Assumptions C02_trace_sound.
+Print Assumptions C02_trace_prefix.
+Print Assumptions C02_reader_exact.
+Print Assumptions C02_reader_frames.
